@@ -171,6 +171,37 @@ class UsesGlobal(Component):
       s.out @= s.in_ + k
 
 
+class PlainCfg:
+  """a parameter object with the default object repr (which contains its memory address)"""
+  def __init__(s, k): s.k = k
+
+
+class ObjParam(Component):
+  def construct(s, cfg):
+    s.in_ = InPort(Bits8)
+    s.out = OutPort(Bits8)
+    k = cfg.k
+
+    @update
+    def up_obj():
+      s.out @= s.in_ + k
+
+
+def double(x): return 2 * x
+def triple(x): return 3 * x
+
+
+class FnParam(Component):
+  def construct(s, fn):
+    s.in_ = InPort(Bits8)
+    s.out = OutPort(Bits8)
+    k = fn(3)
+
+    @update
+    def up_fn():
+      s.out @= s.in_ + k
+
+
 # (label, factory) ; a factory returns a fresh component instance
 def catalogue():
   S1 = mk_struct({"a": Bits4, "b": Bits4})
@@ -196,6 +227,7 @@ def catalogue():
     ("TupleParam((3,))", lambda: TupleParam((3,))), ("TupleParam((5,))", lambda: TupleParam((5,))), ("TupleParam([3])", lambda: TupleParam([3])),
     ("NegParam(-1)", lambda: NegParam(-1)), ("NegParam(-2)", lambda: NegParam(-2)), ("NegParam(-1,0)", lambda: NegParam(-1, 0)), ("NegParam(-1,'None')", lambda: NegParam(-1, "None")),
     ("Typed(Bits8(16))", lambda: Typed(Bits8(16))), ("Typed(10)", lambda: Typed(10)), ("Typed('é')", lambda: Typed("é")),
+    ("FnParam(double)", lambda: FnParam(double)), ("FnParam(triple)", lambda: FnParam(triple)),
     ("TwinA()", lambda: TwinA()), ("TwinB()", lambda: TwinB()),
     ("UsesGlobal[k=4]", glob(4)), ("UsesGlobal[k=6]", glob(6)),
   ]
